@@ -49,7 +49,7 @@ def c04_stages(tier):
 def c17_stages(tier):
     if tier == "quick":
         return [xport_stage("C17", 120_000, crash_is_violation=True), xport_stage("C17", 160, name="miri", kind="miri", shards=16, timeout=600)]
-    return [xport_stage("C17", 4_000_000, timeout=3600, crash_is_violation=True),
+    return [xport_stage("C17", 3_000_000, timeout=3600, crash_is_violation=True),
             xport_stage("C17", 6_000, name="miri", kind="miri", shards=16, timeout=3600)]
 
 
@@ -73,7 +73,7 @@ def c14_stages(tier):
 
 
 def c19_stages(tier):
-    return [vfsx_stage("C19", 1_600 if tier == "quick" else 30_000, timeout=3600, crash_is_violation=True)]
+    return [vfsx_stage("C19", 1_600 if tier == "quick" else 15_000, timeout=3600, crash_is_violation=True)]
 
 
 def ptfs_stage(prop, cases, name="native", kind="native", **kw):
@@ -83,10 +83,10 @@ def ptfs_stage(prop, cases, name="native", kind="native", **kw):
 
 
 def c05_stages(tier):
-    st = [ptfs_stage("C05", 2_048 if tier == "quick" else 50_000, timeout=3600, crash_is_violation=True)]
+    st = [ptfs_stage("C05", 2_048 if tier == "quick" else 30_000, timeout=3600, crash_is_violation=True)]
     if tier == "thorough":
         # the same monitors with the crate and harness built under AddressSanitizer
-        st.append(ptfs_stage("C05", 2048, name="asan", kind="asan", core=False, timeout=3600, crash_is_violation=True))
+        st.append(ptfs_stage("C05", 1024, name="asan", kind="asan", core=False, timeout=3600, crash_is_violation=True))
     return st
 
 
@@ -107,7 +107,7 @@ def c08_stages(tier):
 def c09_stages(tier):
     if tier == "quick":
         return [ptfs_stage("C09", 480, timeout=1200, crash_is_violation=True, args={"stress": 4, "walks": 12})]
-    return [ptfs_stage("C09", 8_000, timeout=3600, crash_is_violation=True, args={"stress": 60, "walks": 40}),
+    return [ptfs_stage("C09", 6_000, timeout=3600, crash_is_violation=True, args={"stress": 60, "walks": 40}),
             ptfs_stage("C09", 0, name="tsan", kind="tsan", timeout=3000, shards=4, args={"stress": 120})]
 
 
@@ -151,10 +151,10 @@ def c16_stages(tier):
 
 
 def c18_stages(tier):
-    st = [ptfs_stage("C18", 3_000 if tier == "quick" else 80_000, timeout=3600, crash_is_violation=True)]
+    st = [ptfs_stage("C18", 3_000 if tier == "quick" else 50_000, timeout=3600, crash_is_violation=True)]
     if tier == "thorough":
         # the same monitors with the crate and harness built under AddressSanitizer
-        st.append(ptfs_stage("C18", 3000, name="asan", kind="asan", core=False, timeout=3600, crash_is_violation=True))
+        st.append(ptfs_stage("C18", 1500, name="asan", kind="asan", core=False, timeout=3600, crash_is_violation=True))
     return st
 
 
@@ -162,7 +162,7 @@ def c12_stages(tier):
     if tier == "quick":
         return [wire_stage("C12", 200_000), ptfs_stage("C12", 1_600, name="stack-toggles", core=False, timeout=1200),
                 wire_stage("C12", 160, name="miri", kind="miri", shards=16, timeout=600)]
-    return [wire_stage("C12", 6_000_000, timeout=1800), ptfs_stage("C12", 60_000, name="stack-toggles", core=False, timeout=2400),
+    return [wire_stage("C12", 4_000_000, timeout=3600), ptfs_stage("C12", 30_000, name="stack-toggles", core=False, timeout=3600),
             wire_stage("C12", 3200, name="miri", kind="miri", shards=16, timeout=2400)]
 
 
